@@ -34,7 +34,17 @@
 //!  2. `None` is only reported for a field that does not exist / is empty in that value;
 //!     `_at(i)` for i = count, count+1 reports `None`;
 //!  3. the walker's own encoding equals `tx.to_bytes()` (validates the walker itself);
-//!  4. every accessor gives the same answer on the precomputed transaction.
+//!  4. every accessor gives the same answer on the precomputed transaction;
+//!  5. histories of cache states (star corpus, all kinds): `precompute; EDIT; precompute`
+//!     for every EDIT of a 19-letter alphabet of layout-shifting edits made through the
+//!     public `*_mut` accessors on the PRECOMPUTED value (none, push/pop witness, lengthen
+//!     a witness by 1/8, insert/remove the first input, insert/remove the first output,
+//!     lengthen the first predicate by 1/8, predicate data by 1, message data by 8, toggle
+//!     the Tip / Maturity policy, script +1, script data +8, push a storage slot, push a
+//!     proof-set entry); after the FINAL precompute every accessor must answer exactly as
+//!     on the same value without metadata (decode of its encoding), whose answers are in
+//!     turn checked against the walker and the bytes (1–3). Nothing is demanded between
+//!     the edit and the second precompute (the cache is documented as possibly stale).
 //!
 //! Keys: `C04:<owner>:<accessor>:<class>`; owner = tx kind (`Chargeable` for the cached
 //! input/output/witness tables shared by all kinds), `InputRepr::Coin|Contract|Message`
@@ -58,7 +68,10 @@ use fuel_tx::{
     Transaction,
 };
 use fuel_types::{
-    canonical::Serialize,
+    canonical::{
+        Deserialize,
+        Serialize,
+    },
     ChainId,
 };
 use std::collections::{
@@ -892,17 +905,260 @@ fn check_value(tx: &Transaction, descr: &str, case: &Value, acc: &mut Acc, refus
     Some((layout, obs))
 }
 
-fn check_tx(level: CorpusLevel, idx: u64, acc: &mut Acc) {
+
+// ------------------------------------------------------------------ histories of cache states
+
+/// Layout-shifting edits applied to an already precomputed transaction through the public
+/// `*_mut` accessors (none of them resets the metadata), before precompute is called again.
+const EDITS: [&str; 19] = [
+    "none (precompute twice)",
+    "push witness(5 bytes)",
+    "pop witness",
+    "lengthen witness[0] by 1",
+    "lengthen witness[0] by 8",
+    "insert input[0] (CoinPredicate)",
+    "remove input[0]",
+    "insert output[0] (Coin)",
+    "remove output[0]",
+    "lengthen first predicate by 1",
+    "lengthen first predicate by 8",
+    "toggle Tip policy",
+    "toggle Maturity policy",
+    "script += 1 byte",
+    "script data += 8 bytes",
+    "push storage slot",
+    "push proof set entry",
+    "lengthen first predicate data by 1",
+    "lengthen first message data by 8",
+];
+
+fn edit_common<T>(t: &mut T, e: usize) -> bool
+where
+    T: field::Policies + field::Inputs + field::Outputs + field::Witnesses,
+{
+    use fuel_tx::policies::PolicyType;
+    match e {
+        0 => true,
+        1 => {
+            t.witnesses_mut().push(vec![0xd1u8; 5].into());
+            true
+        }
+        2 => t.witnesses_mut().pop().is_some(),
+        3 | 4 => match t.witnesses_mut().first_mut() {
+            Some(w) => {
+                let n = if e == 3 { 1 } else { 8 };
+                w.as_vec_mut().extend(std::iter::repeat(0xd2u8).take(n));
+                true
+            }
+            None => false,
+        },
+        5 => {
+            t.inputs_mut().insert(0, txcorpus::base_input(1, 1));
+            true
+        }
+        6 => {
+            if t.inputs().is_empty() {
+                false
+            } else {
+                t.inputs_mut().remove(0);
+                true
+            }
+        }
+        7 => {
+            t.outputs_mut().insert(0, txcorpus::base_output(0, 1));
+            true
+        }
+        8 => {
+            if t.outputs().is_empty() {
+                false
+            } else {
+                t.outputs_mut().remove(0);
+                true
+            }
+        }
+        9 | 10 | 17 | 18 => {
+            let n = if e == 9 || e == 17 { 1 } else { 8 };
+            for inp in t.inputs_mut().iter_mut() {
+                let v: Option<&mut Vec<u8>> = match (e, inp) {
+                    (9 | 10, Input::CoinPredicate(c)) => Some(&mut c.predicate),
+                    (9 | 10, Input::MessageCoinPredicate(c)) => Some(&mut c.predicate),
+                    (9 | 10, Input::MessageDataPredicate(c)) => Some(&mut c.predicate),
+                    (17, Input::CoinPredicate(c)) => Some(&mut c.predicate_data),
+                    (17, Input::MessageCoinPredicate(c)) => Some(&mut c.predicate_data),
+                    (17, Input::MessageDataPredicate(c)) => Some(&mut c.predicate_data),
+                    (18, Input::MessageDataSigned(c)) => Some(&mut c.data),
+                    (18, Input::MessageDataPredicate(c)) => Some(&mut c.data),
+                    _ => None,
+                };
+                if let Some(v) = v {
+                    v.extend(std::iter::repeat(0xd3u8).take(n));
+                    return true
+                }
+            }
+            false
+        }
+        11 | 12 => {
+            let ty = if e == 11 { PolicyType::Tip } else { PolicyType::Maturity };
+            let now = t.policies().get(ty);
+            t.policies_mut().set(ty, if now.is_some() { None } else { Some(3) });
+            true
+        }
+        _ => false,
+    }
+}
+
+/// Apply edit `e` to `tx` (which carries metadata). `false` = not applicable to this value.
+fn apply_edit(tx: &mut Transaction, e: usize) -> bool {
+    use field::{
+        ProofSet as _,
+        Script as _,
+        ScriptData as _,
+        StorageSlots as _,
+    };
+    match tx {
+        Transaction::Script(t) => match e {
+            13 => {
+                t.script_mut().push(0xd4);
+                true
+            }
+            14 => {
+                t.script_data_mut().extend([0xd5u8; 8]);
+                true
+            }
+            _ => edit_common(t, e),
+        },
+        Transaction::Create(t) => match e {
+            15 => {
+                t.storage_slots_mut().as_mut().push(fuel_tx::StorageSlot::new([0xfe; 32].into(), [0xd6; 32].into()));
+                true
+            }
+            _ => edit_common(t, e),
+        },
+        Transaction::Upgrade(t) => edit_common(t, e),
+        Transaction::Upload(t) => match e {
+            16 => {
+                t.proof_set_mut().push([0xd7; 32].into());
+                true
+            }
+            _ => edit_common(t, e),
+        },
+        Transaction::Blob(t) => edit_common(t, e),
+        Transaction::Mint(_) => e == 0,
+    }
+}
+
+/// precompute; edit; precompute again; then the full accessor oracle on the result:
+/// every accessor must answer as on a copy WITHOUT metadata (decode of the encoding), and
+/// that copy's answers must match the walker and the bytes.
+fn check_histories(tx: &Transaction, descr: &str, case: &Value, acc: &mut Acc) {
+    let kind = tx_kind(tx);
+    let mut pre0 = tx.clone();
+    if !matches!(guard::catch_any(|| pre0.precompute(&ChainId::new(CHAIN))), Ok(Ok(()))) {
+        return
+    }
+    for (e, ename) in EDITS.iter().enumerate() {
+        let mut h = pre0.clone();
+        if !apply_edit(&mut h, e) {
+            continue
+        }
+        acc.evals += 1;
+        match guard::catch_any(|| h.precompute(&ChainId::new(CHAIN + 1))) {
+            Ok(Ok(())) => {}
+            Ok(Err(_)) => {
+                acc.outcome("history_second_precompute_refused_(not_this_property)");
+                continue
+            }
+            Err(m) => {
+                acc.outcome("VIOLATION_panic");
+                acc.viol(
+                    format!("C04:{kind}:precompute:panic"),
+                    &|| format!("precompute after '{ename}' panicked: {m}; {descr}"),
+                    case,
+                );
+                continue
+            }
+        }
+        let hd = format!("{descr} after [precompute; {ename}; precompute]");
+        let bytes = match guard::catch_any(|| h.to_bytes()) {
+            Ok(b) => b,
+            Err(_) => continue,
+        };
+        // the same value with the metadata stripped
+        let stripped = match guard::catch_any(|| Transaction::from_bytes(&bytes)) {
+            Ok(Ok(t)) if t == h && !t.is_computed() => t,
+            _ => {
+                acc.outcome("history_value_does_not_round_trip_(see_C01)");
+                continue
+            }
+        };
+        let (oc, ou) = match (guard::catch_any(|| observe(&h)), guard::catch_any(|| observe(&stripped))) {
+            (Ok(a), Ok(b)) => (a, b),
+            _ => {
+                acc.outcome("VIOLATION_panic");
+                acc.viol(
+                    format!("C04:{kind}:offset-accessors:panic"),
+                    &|| format!("an offset accessor panicked; {hd}"),
+                    case,
+                );
+                continue
+            }
+        };
+        if oc.len() != ou.len() {
+            panic!("observation lists differ in length for {hd}");
+        }
+        acc.evals += oc.len() as u64;
+        // first accessor (encoding order) whose cached answer differs from the uncached one
+        match oc.iter().zip(ou.iter()).find(|(c, u)| c.got != u.got || c.got_len != u.got_len) {
+            None => acc.outcome("history_cached_equals_uncached"),
+            Some((c, u)) => {
+                acc.outcome("VIOLATION_stale_after_re_precompute");
+                acc.viol(
+                    format!("C04:{kind}:{}:stale-after-re-precompute", c.acc),
+                    &|| format!(
+                        "{} reports {:?}{} from the re-computed metadata, {:?}{} without metadata; {hd}",
+                        obs_name(c),
+                        c.got,
+                        c.got_len.map(|l| format!(" (len {l})")).unwrap_or_default(),
+                        u.got,
+                        u.got_len.map(|l| format!(" (len {l})")).unwrap_or_default()
+                    ),
+                    case,
+                );
+            }
+        }
+        // the uncached answers of the edited value against walker and bytes
+        let layout = Layout::of_tx(&stripped);
+        if layout.bytes != bytes {
+            acc.outcome("VIOLATION_encoding");
+            acc.viol(
+                format!("C04:{kind}:to_bytes:encoding"),
+                &|| format!("the encoding differs from the layout walker's; {hd}"),
+                case,
+            );
+            continue
+        }
+        verify(&bytes, &layout, &ou, &hd, case, acc);
+    }
+}
+
+fn check_tx(level: CorpusLevel, idx: u64, histories: bool, acc: &mut Acc) {
     let tx = txcorpus::tx_at(level, idx);
     let case = json!({"level": level.name(), "idx": idx});
     let mut refused = false;
     check_value(&tx, &descr(level, idx, false), &case, acc, &mut refused);
     // repaired copy only where precompute refuses the corpus value
+    let mut hist_on = tx.clone();
+    let mut hist_repaired = false;
     if refused {
         if let Some(rep) = txlayout::repaired_for_precompute(&tx) {
             acc.outcome("repaired_copy_checked");
             check_value(&rep, &descr(level, idx, true), &case, acc, &mut refused);
+            hist_on = rep;
+            hist_repaired = true;
         }
+    }
+    if histories {
+        check_histories(&hist_on, &descr(level, idx, hist_repaired), &case, acc);
     }
 }
 
@@ -956,14 +1212,15 @@ fn explore(ctx: &Ctx) {
         star_n,
         32,
         Acc::default,
-        |i, acc| check_tx(CorpusLevel::Star, i, acc),
+        |i, acc| check_tx(CorpusLevel::Star, i, true, acc),
         |acc| acc.flush(ctx),
     );
     ctx.set(
         "tx_star",
         json!({"count": star_n, "kinds": txcorpus::TX_KINDS, "plus": "Mint", "dims": txcorpus::DIM_NAMES,
                "dim_sizes_per_kind": (0..6).map(txcorpus::tx_dims).collect::<Vec<_>>(),
-               "each_without_and_with_precompute": true, "out_of_range_probes": "index = count, count+1"}),
+               "each_without_and_with_precompute": true, "out_of_range_probes": "index = count, count+1",
+               "cache_histories": "precompute; EDIT; precompute — for every applicable EDIT", "edit_alphabet": EDITS}),
     );
     // samples: the rich base point of each of three kinds + a Mint
     for kind in [0usize, 1, 4] {
@@ -997,7 +1254,7 @@ fn explore(ctx: &Ctx) {
                 per_policy,
                 4096,
                 Acc::default,
-                |i, acc| check_tx(CorpusLevel::Full, base + i, acc),
+                |i, acc| check_tx(CorpusLevel::Full, base + i, false, acc),
                 |acc| acc.flush(ctx),
             );
             done_segments.push(*p);
@@ -1016,7 +1273,7 @@ fn replay(case: &Value, ctx: &Ctx) {
     let mut acc = Acc::default();
     let level = CorpusLevel::from_name(case["level"].as_str().unwrap_or("Star"));
     let idx = case["idx"].as_u64().expect("idx");
-    check_tx(level, idx, &mut acc);
+    check_tx(level, idx, true, &mut acc);
     acc.flush(ctx);
 }
 
